@@ -2,7 +2,7 @@
    merges are monotone.  Only statements, each closed by [exact] of a lemma
    proved in Proofs/DNS*.v. *)
 From PV Require Import Base.Prelude Base.Slice Model.DNS Model.DNSMerge Model.DNSRecords Model.DNSNbns Model.DNSMdns
-     Spec.RFC1035 Proofs.RFC1035 Proofs.DNS Proofs.DNSMerge Proofs.DNSRecords Proofs.DNSSpec Proofs.DNSNbns Proofs.DNSMdns.
+     Spec.RFC1035 Proofs.RFC1035 Proofs.DNS Proofs.DNSMerge Proofs.DNSRecords Proofs.DNSSpec Proofs.DNSNbns Proofs.DNSMdns Proofs.DNSReject.
 Open Scope N_scope.
 
 (* ------------------------------------------------------------------ *)
@@ -186,6 +186,48 @@ Theorem C17_processdns_table : forall t p lim rm,
              ctable_of (snd (processDNS t p)) = snd (ref_process (ctable_of t) rm).
 Proof. exact processdns_table. Qed.
 Print Assumptions C17_processdns_table.
+
+(* C17_processdns_rejects (the reverse direction).  Whatever ProcessDNS accepts, the reference reads
+   as a well-formed response once its name-length limit is lifted (lim >= 64 * len p bounds every
+   name a message of that size can hold); hence a message the reference rejects for any structural
+   reason (short header, QDCOUNT <> 1, name that is no name, truncated question or record, RDLENGTH
+   beyond the message, A / AAAA of the wrong size, bad CNAME / PTR target) gives an error. *)
+Theorem C17_processdns_accepts_wellformed : forall p, wf p -> bytes_ok (arr p) ->
+  forall lim, (64 * len p <= lim)%nat -> forall t re,
+  fst (processDNS t p) = Ok re -> exists rm, ref_message lim (view p) = Some rm.
+Proof. exact processDNS_accepts_wellformed. Qed.
+Print Assumptions C17_processdns_accepts_wellformed.
+
+Theorem C17_processdns_rejects : forall p, wf p -> bytes_ok (arr p) ->
+  forall lim, (64 * len p <= lim)%nat -> forall t,
+  ref_message lim (view p) = None -> exists e, fst (processDNS t p) = Err e.
+Proof. exact processDNS_rejects. Qed.
+Print Assumptions C17_processdns_rejects.
+
+(* ... and what the error leaves behind: the table is untouched, or the ONE entry of the question
+   name, which was in the table before, has grown by the records decoded before the malformed one
+   (the entry's maps are shared with the table and updated in place); nothing is removed, no other
+   entry changes, a name not yet in the table leaves no trace.  Reading of the property: "rejected
+   with an error" constrains the result of the call, which is an error and an empty entry; the
+   records kept are records every decoder reads from the well-formed prefix of the message, so this
+   is recorded as accepted behaviour (docs/C17.md), not as a finding.  The Example shows it is real. *)
+Theorem C17_processdns_error_leaves : forall t p x, fst (processDNS t p) = Err x ->
+  snd (processDNS t p) = t \/
+  exists e0 e1, tbl_find (de_name e0) t = Some e0 /\ entry_grows e0 e1 /\ snd (processDNS t p) = tbl_put e1 t.
+Proof. exact processDNS_error_leaves. Qed.
+Print Assumptions C17_processdns_error_leaves.
+
+Example C17_processdns_error_persists :
+  let q := [1; 97; 0; 0; 1; 0; 1] in
+  let a ip := [192; 12; 0; 1; 0; 1; 0; 0; 0; 60; 0; 4; 10; 0; 0; ip] in
+  let m1 := of_bytes ([0;1;129;128; 0;1; 0;1; 0;0; 0;0] ++ q ++ a 1) in
+  let m2 := of_bytes ([0;2;129;128; 0;1; 0;2; 0;0; 0;0] ++ q ++ a 2 ++ [192; 12; 0; 1]) in
+  let t1 := snd (processDNS [] m1) in
+  fst (processDNS t1 m2) = Err EOther /\
+  map (fun e => List.length (de_ip4 e)) t1 = [1%nat] /\
+  map (fun e => List.length (de_ip4 e)) (snd (processDNS t1 m2)) = [2%nat].
+Proof. exact processDNS_error_persists. Qed.
+Print Assumptions C17_processdns_error_persists.
 
 Example C17_processdns_table_nonvacuous :
   let p := of_bytes example_response in
